@@ -522,3 +522,90 @@ Proof.
   split; [|auto]. apply rphp_T1; try assumption.
   apply (relativized_placement_ext m r n P Q S); auto; intros; symmetry; auto.
 Qed.
+
+(* ================= T3: classical criteria ================= *)
+
+(* ---------- gphp: satisfiable iff the graph has a matching saturating the left side ---------- *)
+Lemma In_bip_index adj u v : In (u, v) (bip_index adj) <-> 1 <= u <= len adj /\ In v (bip_nbrs adj u).
+Proof. unfold bip_index, bip_nbrs. rewrite In_bip_rows. split; intros [H1 H2]; (split; [lia|exact H2]). Qed.
+
+Lemma bip_nbrs_range adj R u v : bip_wf adj R = true -> 1 <= u <= len adj -> In v (bip_nbrs adj u) -> 1 <= v <= R.
+Proof.
+  intros Hwf Hu Hv. unfold bip_nbrs in Hv.
+  assert (In (nth (Z.to_nat (u - 1)) adj []) adj) as Hin by (apply nth_In; unfold len in Hu; lia).
+  apply (bip_wf_rows adj R Hwf _ Hin). exact Hv.
+Qed.
+
+Theorem gphp_sat_iff_matching adj R f : bip_wf adj R = true ->
+  ((exists a, irs_hold a (gphp_ir adj R f false) = true) <-> exists h, left_saturating adj h).
+Proof.
+  intros Hwf. split.
+  - intros [a Ha]. apply (gphp_T1 a adj R f false Hwf) in Ha. destruct Ha as (H1 & _ & H3 & _).
+    set (h := fun u => first_such (fun v => existsb (pair_eqb (u, v)) (gphp_sel a adj)) 1 (R + 1)).
+    assert (Hh : forall u, 1 <= u <= len adj -> In (u, h u) (gphp_sel a adj) /\ 1 <= h u <= R).
+    { intros u Hu. destruct (H1 u Hu) as [v Hv].
+      assert (1 <= v <= R) as Hvr.
+      { pose proof (gphp_sel_edges a adj _ Hv) as He. apply In_bip_index in He as [_ He].
+        apply (bip_nbrs_range adj R u v Hwf Hu He). }
+      destruct (first_such_spec (fun v => existsb (pair_eqb (u, v)) (gphp_sel a adj)) 1 (R + 1)) as [A B].
+      { exists v. split; [lia|]. apply existsb_exists. exists (u, v). split; [assumption|now apply pair_eqb_spec]. }
+      fold (h u) in A, B. apply existsb_exists in B as [e [He Heq]]. apply pair_eqb_spec in Heq. subst e. split; [assumption|lia]. }
+    exists h. split.
+    + intros u Hu. destruct (Hh u Hu) as [Hin _]. apply gphp_sel_edges, In_bip_index in Hin. tauto.
+    + intros u1 u2 Hu1 Hu2 E. destruct (Hh u1 Hu1) as [A1 B1]. destruct (Hh u2 Hu2) as [A2 B2].
+      apply (H3 (h u1)); [lia|assumption|now rewrite E].
+  - intros [h [Hh Hinj]]. apply gphp_sat_iff_exists; [assumption|].
+    exists (fun e => snd e =? h (fst e)). repeat split.
+    + intros u Hu. exists (h u). apply filter_In. split; [apply In_bip_index; auto|cbn; lia].
+    + discriminate.
+    + intros v u1 u2 Hv A B. apply filter_In in A as [A1 A2]. apply filter_In in B as [B1 B2]. cbn in A2, B2.
+      apply In_bip_index in A1 as [A1 _]. apply In_bip_index in B1 as [B1 _]. apply Hinj; auto. lia.
+    + intros _ u v1 v2 Hu A B. apply filter_In in A as [_ A]. apply filter_In in B as [_ B]. cbn in A, B. lia.
+Qed.
+
+(* ---------- rphp ---------- *)
+Theorem rphp_sat_iff m r n : 0 <= m -> 0 <= r -> 0 <= n ->
+  ((exists a, irs_hold a (rphp_ir m r n) = true) <-> m <= r /\ m <= n).
+Proof.
+  intros Hm Hr Hn. split.
+  - intros [a Ha]. apply rphp_T1 in Ha; try assumption. destruct Ha as (H1 & H2 & H3 & H4 & H5).
+    set (P := rphp_P a r) in *. set (Q := rphp_Q a m r n) in *. set (S := rphp_S a m r n) in *.
+    set (h := fun u => first_such (P u) 1 (r + 1)).
+    assert (Hh : forall u, 1 <= u <= m -> 1 <= h u <= r /\ P u (h u) = true).
+    { intros u Hu. destruct (H1 u Hu) as [v [Hv Pt]].
+      destruct (first_such_spec (P u) 1 (r + 1)) as [A B]; [exists v; split; [lia|assumption]|]. split; [unfold h; lia|exact B]. }
+    assert (Hhinj : forall u1 u2, 1 <= u1 <= m -> 1 <= u2 <= m -> h u1 = h u2 -> u1 = u2).
+    { intros u1 u2 Hu1 Hu2 E. destruct (Hh u1 Hu1) as [A1 B1]. destruct (Hh u2 Hu2) as [A2 B2].
+      apply (H2 (h u1)); auto. now rewrite E. }
+    set (g := fun u => first_such (Q (h u)) 1 (n + 1)).
+    assert (Hg : forall u, 1 <= u <= m -> 1 <= g u <= n /\ Q (h u) (g u) = true).
+    { intros u Hu. destruct (Hh u Hu) as [A B]. assert (S (h u) = true) as St by (apply (H3 u (h u)); auto).
+      destruct (H4 (h u) A St) as [w [Hw Qt]].
+      destruct (first_such_spec (Q (h u)) 1 (n + 1)) as [A' B']; [exists w; split; [lia|assumption]|]. split; [unfold g; lia|exact B']. }
+    split.
+    + apply (pigeonhole_core h); auto. intros u Hu. apply Hh, Hu.
+    + apply (pigeonhole_core g); auto; [intros u Hu; apply Hg, Hu|].
+      intros u1 u2 Hu1 Hu2 E. destruct (Hh u1 Hu1) as [A1 B1]. destruct (Hh u2 Hu2) as [A2 B2].
+      destruct (Hg u1 Hu1) as [C1 D1]. destruct (Hg u2 Hu2) as [C2 D2].
+      apply Hhinj; auto. apply (H5 (g u1)); auto; try (apply (H3 u1); auto; fail); try (apply (H3 u2); auto; fail).
+      now rewrite E.
+  - intros [Hmr Hmn].
+    destruct (rphp_T2 m r n (fun u v => u =? v) (fun v w => (v =? w) && (v <=? m)) (fun v => v <=? m) Hm Hr Hn) as [a [Ha _]]; [|eauto].
+    repeat split.
+    + intros u Hu. exists u. split; lia.
+    + intros; lia.
+    + intros; lia.
+    + intros v Hv St. exists v. split; lia.
+    + intros; lia.
+Qed.
+
+(* ---------- bphp ---------- *)
+Theorem bphp_sat_iff m n : 0 <= m -> 1 <= n ->
+  ((exists a, irs_hold a (bphp_ir m n) = true) <-> m <= n).
+Proof.
+  intros Hm Hn. split.
+  - intros [a Ha]. apply bphp_T1 in Ha; [|assumption]. destruct Ha as [Hr Hinj].
+    apply (pigeonhole_core (fun i => bphp_hole a n i + 1));
+      [lia|lia|intros i Hi; specialize (Hr i Hi); lia|intros i1 i2 Hi1 Hi2 E; apply Hinj; auto; lia].
+  - intros Hmn. destruct (bphp_T2 m n (fun i => i - 1) Hn) as [a [Ha _]]; [|eauto]. split; intros; lia.
+Qed.
